@@ -62,6 +62,19 @@ class Env:
             return self.junk & _mask(t[1])
         if k == 'immsym':
             return self.junk          # a member offset / frame offset left symbolic: part of an address
+        if k == 'ret':
+            # a register after a call: %rax holds the callee's result in the low `retbits` bits (psABI: the bits above the width of
+            # the return type are undefined), every other register is clobbered
+            if t[1] == 'rax' and 'ret' in self.named:
+                rb = self.named.get('retbits', 64)
+                return (self.named['ret'] & _mask(rb)) | (self.junk & M64 & ~_mask(rb))
+            return self.junk
+        if k in ('cas_ok', 'cas_failed'):
+            if 'cas_ok' not in self.named:
+                raise NotEvaluable('outcome of a compare-and-swap %r' % (t,))
+            return int(bool(self.named['cas_ok']) == (k == 'cas_ok'))
+        if k == 'observed':
+            return self.named.get('observed', self.junk) & _mask(t[1])
         raise NotEvaluable('leaf %r' % (t,))
 
 
@@ -72,8 +85,13 @@ def ceval(t, env):
     k = t[0]
     if k == 'c':
         return t[1] & M64
-    if k in ('r', 'mem', 'init', 'clobber', 'junk', 'immsym'):
+    if k in ('r', 'mem', 'init', 'clobber', 'junk', 'immsym', 'ret', 'cas_ok', 'cas_failed', 'observed'):
         return env.leaf(t)
+    if k == 'casax':
+        # the accumulator after cmpxchg: unchanged on success, the observed value on failure
+        if 'cas_ok' not in env.named:
+            raise NotEvaluable('outcome of a compare-and-swap %r' % (t[-1],))
+        return ceval(t[2] if env.named['cas_ok'] else t[3], env)
     if k == 'hig':
         return (ceval(t[1], env) & _mask(32)) | (env.junk & (_mask(32) << 32))
     if k == 'zx':
@@ -276,3 +294,139 @@ def r_value_convention(cg, rep, rule):
         for v in ([0, 1] if cat == 'bool' else operand_values(cat, sz)):
             cases.append(({'rhs': v}, c_value(cat, sz, v), cat, 'assigning %#x to an object of type class %s' % (v, cat)))
         _judge(rep, rule, '%s:gen_expr:ND_ASSIGN/%s:value' % (U, cat), where, _runs(cg, mk_assign), cases, 'value of an assignment')
+
+
+# ------------------------------------------------------------------------------------------------------------------------------------
+# the other arms of gen_expr that PRODUCE a value narrower than a register by an instruction of their own (not through load() / the
+# cast table): an atomic exchange (xchg leaves the old object in %al/%ax under the stale upper bits of the new value), a
+# compare-and-swap (the success flag comes from setcc), a function call (psABI: the bits of %rax above the return type are
+# undefined). Each must leave its value in the convention of the expression's type, like a load of that type would.
+def _exch_node(cg, cat):
+    def mk(ctx):
+        n = cg.node('node', 'ND_EXCH')
+        b = cg.tcell('obj', only=(cat,))
+        n.fields['ty'] = b
+        n.fields['lhs'] = cg.node('lhs', ty=cg.ptr_to(b, 'pa'))
+        n.fields['rhs'] = cg.node('rhs', ty=b)
+        return n
+    return mk
+
+
+def _cas_node(cg, cat):
+    def mk(ctx):
+        n = cg.node('node', 'ND_CAS')
+        n.fields['ty'] = cg.tcell('nty', only=('bool',))
+        b = cg.tcell('obj', only=(cat,))
+        n.fields['cas_addr'] = cg.node('cas_addr', ty=cg.ptr_to(b, 'pa'))
+        n.fields['cas_old'] = cg.node('cas_old', ty=cg.ptr_to(b, 'po'))
+        n.fields['cas_new'] = cg.node('cas_new', ty=b)
+        return n
+    return mk
+
+
+def _object_values(cat):
+    return [0, 1] if cat == 'bool' else operand_values(cat, INTSZ[cat] * 8)
+
+
+def r_produced_values(cg, rep, rule, P=None):
+    where = '%s:%d' % (U, cg.cu.fn('gen_expr').line)
+    E = cg.cu.enums
+    for cat in UNIT_CATS:
+        sz = INTSZ[cat] * 8
+        # ---- atomic exchange: the value is the object's old value, whatever the new value (and its undefined upper half) was
+        if 'ND_EXCH' in E:
+            cases = []
+            for u in _object_values(cat):
+                for v in (None, 0, _mask(sz)):
+                    named = {'mem': u}
+                    if v is not None:
+                        named['rhs'] = v
+                    cases.append((named, c_value(cat, sz, u), cat, 'exchanging an object of type class %s holding %#x' % (cat, u)))
+            _judge(rep, rule, '%s:gen_expr:ND_EXCH/%s:value' % (U, cat), where, _runs(cg, _exch_node(cg, cat)), cases, 'value of an atomic exchange')
+        # ---- compare-and-swap: the int 1 on success, 0 on failure, whatever was compared
+        if 'ND_CAS' in E:
+            cases = []
+            for okv in (0, 1):
+                for u in (0, _mask(sz), 1 << (sz - 1)):
+                    cases.append(({'cas_ok': okv, 'mem': u, 'observed': (~u) & _mask(sz)}, okv, 'bool',
+                                  'a compare-and-swap on an object of type class %s that %s' % (cat, 'succeeds' if okv else 'fails')))
+            _judge(rep, rule, '%s:gen_expr:ND_CAS/%s:value' % (U, cat), where, _runs(cg, _cas_node(cg, cat)), cases, 'value of a compare-and-swap')
+        # ---- a plain (non-bit-field) member: the object's value, like *p (a variable: gen_addr of the root has arms - TLS - outside the term machine)
+        for kind in ('ND_MEMBER',):
+            def mk_obj(ctx, cat=cat, kind=kind):
+                t = cg.tcell('ty', only=(cat,))
+                n = cg.node('node', kind, ty=t)
+                if kind == 'ND_MEMBER':
+                    m = Obj('Member', lazy=True, label='mem')
+                    m.fields['ty'] = t
+                    m.fields['is_bitfield'] = 0
+                    m.fields['offset'] = Sym('off', 'int')
+                    n.fields['member'] = m
+                    n.fields['lhs'] = cg.node('base')
+                return n
+            cases = []
+            for u in _object_values(cat):
+                cases.append(({'mem': u}, c_value(cat, sz, u), cat, 'reading an object of type class %s holding %#x' % (cat, u)))
+            _judge(rep, rule, '%s:gen_expr:%s/%s:value' % (U, kind, cat), where, _runs(cg, mk_obj), cases, 'value of a variable' if kind == 'ND_VAR' else 'value of a member')
+    # ---- function call: the callee defines the low bits of %rax only
+    if P is None:
+        return
+    for cat in UNIT_CATS:
+        sz = INTSZ[cat] * 8
+        key = '%s:gen_expr:ND_FUNCALL/%s:value' % (U, cat)
+        try:
+            runs = [_call_run(cg, P, types, cat) for types in ((), ('int',), ('long', 'int'))]
+        except Unknown as e:
+            rep.undecided(rule, key, 'call sequence not interpretable: %s' % e, where=where); continue
+        cases = []
+        for u in _object_values(cat):
+            cases.append(({'ret': u, 'retbits': sz}, c_value(cat, sz, u), cat, 'a call of a function of return type class %s that returns %#x' % (cat, u)))
+        _judge(rep, rule, key, where, runs, cases, 'value of a function call')
+
+
+def _call_run(cg, P, types, ret):
+    """gen_expr on a concrete call node `callee(a0, ...)` with integer arguments and an integer return type: (trace, final states)"""
+    from .chibi import Trace, linearise
+    from .lib_types import Types
+    from .x86 import Machine
+    T = Types(P)
+    E = cg.cu.enums
+    it = cg.interp()
+    it.global_init['depth'] = 0
+    it.rec_limit = 64
+
+    def mk(ctx):
+        it.ctx = ctx
+        head = prev = None
+        for i, tn in enumerate(types):
+            a = Obj('Node', lazy=False, label='a%d' % i)
+            a.fields.update({'kind': E['ND_VAR'], 'ty': T.make(it, tn), 'tok': Obj('Token', lazy=True, label='tok')})
+            if prev is None:
+                head = a
+            else:
+                prev.fields['next'] = a
+            prev = a
+        fty = Obj('Type', lazy=False, label='fty'); fty.fields['kind'] = E['TY_FUNC']
+        fn = Obj('Node', lazy=False, label='fn')
+        fn.fields.update({'kind': E['ND_VAR'], 'ty': fty, 'var': Obj('Obj', lazy=False, label='fvar', fields={'name': 'callee', 'ty': fty})})
+        n = Obj('Node', lazy=False, label='call')
+        n.fields.update({'kind': E['ND_FUNCALL'], 'args': head or 0, 'lhs': fn, 'func_ty': fty, 'ty': T.make(it, ret), 'tok': Obj('Token', lazy=True, label='tok')})
+        n.meta['root'] = True
+        ctx.root = n
+        return [n]
+    res = it.explore('gen_expr', mk)
+    rets = [(c, o) for c, o in res if o[0] == 'ret']
+    if len(rets) != 1:
+        raise Unknown('gen_expr(ND_FUNCALL) on a concrete call has %d returning paths' % len(rets))
+    tr = Trace(rets[0][0])
+
+    def pseudo(s, n):
+        name = getattr(n[2], 'label', '?')
+        s.events.append(('eval', n[1], name))
+        for r in ('rcx', 'rdx', 'rsi', 'rdi', 'r8', 'r9', 'r10', 'r11'):
+            s.reg[r] = ('clobber', r, name)
+        for x in list(s.xmm):
+            s.xmm[x] = ('clobber', 'xmm%d' % x, name)
+        s.flags = None
+        s.reg['rax'] = ('r', name, 64)
+    return tr, Machine().run(linearise(tr), lambda s: None, pseudo)
